@@ -205,6 +205,10 @@ def gen_cfg(rseed, index=0):
     cfg["transpose"] = False if com == "constant" else (rng.chance(0.1) or i % 8 in (1, 5))
     if i % 8 == 5:
         cfg["rotation_deg"] = 0        # exchanged axes without rotation: its own code path (float32 positions are flipped in place)
+    if (cfg["transpose"] or cfg["rotation_deg"] != 0) and rng.chance(0.8):
+        # the object box is not transposed / only floor-rotated with the scan: small paddings leave the box (known finding);
+        # keep most of these configurations inside it so that they exercise the predicate
+        cfg["pad"] = list(rng.choice([(6, 6), (8, 5), (8, 8)]))
     # order in which the mode powers are installed through the probe setter (no order in the quantifier)
     cfg["mode_order"] = rng.weighted([("descending", 1), ("ascending", 2), ("mixed", 2), ("near-equal", 1)]) if K > 1 else "single"
     return cfg
